@@ -95,6 +95,32 @@ func loadEngine(repo string, patterns []string) (*Engine, error) {
 			e.funcs[name] = fn
 		}
 	}
+	// methods that nothing reaches (used only by tests) are still functions of the
+	// repository that a contract may bind to
+	for _, p := range pkgs {
+		scope := p.Types.Scope()
+		for _, n := range scope.Names() {
+			tn, ok := scope.Lookup(n).(*types.TypeName)
+			if !ok {
+				continue
+			}
+			named, ok := tn.Type().(*types.Named)
+			if !ok || named.TypeParams().Len() > 0 {
+				continue
+			}
+			for i := 0; i < named.NumMethods(); i++ {
+				fn := prog.FuncValue(named.Method(i))
+				if fn == nil || fn.Pkg == nil {
+					continue
+				}
+				name := fn.Pkg.Pkg.Name() + "." + fn.RelString(fn.Pkg.Pkg)
+				if _, ok := e.funcs[name]; !ok {
+					e.fnames[fn] = name
+					e.funcs[name] = fn
+				}
+			}
+		}
+	}
 	// contracts
 	for _, p := range pkgs {
 		cs, err := parseContracts(p)
